@@ -287,9 +287,16 @@ def locate(prs, host):
     raise ValueError(host)
 
 
-def level_label(host, level):
+def base_level(host, level):
+    """call site: frame (TextFrame.text), shape (Shape.text), cell (_Cell.text), para, run"""
     if level == "owner":
         level = "shape" if host in SHAPE_HOSTS else "cell" if host == "cell" else "frame"
+    return level
+
+
+def level_label(host, level):
+    """host-qualified level used for coverage accounting (notes / chart hosts are counted apart)"""
+    level = base_level(host, level)
     if host in ("notes", "chart_title", "axis_title"):
         return "%s-%s" % (host.replace("_", "-"), level)
     return level
@@ -394,7 +401,7 @@ def observe(owner, tf, model, phase, lvl, ctx):
 def apply_op(owner, tf, host, model, op, rec):
     """one assignment; steps `model` (list of item lists) and checks level-specific clauses"""
     level, pi, ri, text = op[0], op[1], op[2], op[3]
-    lvl = level_label(host, level)
+    lvl = base_level(host, level)
     ctx = "host=%s level=%s text=%s" % (host, lvl, _clip(text, 120))
     before = read_body(tf._txBody)
     if level in ("frame", "owner"):
@@ -524,8 +531,9 @@ def run_case(case, rec=None):
                                         % (ctx2, name, i, "lost" if a[k] is None else "appeared"))
             body = body2
         if rec is not None:
-            rec.note([lvl, text], S.nontrivial_text(text),
-                     classes=["level:" + lvl, "cycles-after-op:%d" % ncyc] + ["txt:" + c for c in S.classes_of(text)])
+            lab = level_label(host, op[0])
+            rec.note([lab, text], S.nontrivial_text(text),
+                     classes=["level:" + lab, "cycles-after-op:%d" % ncyc] + ["txt:" + c for c in S.classes_of(text)])
 
 
 # ====================================================================== generation
@@ -598,7 +606,7 @@ NENUM = 4
 
 
 def jobs(tier):
-    n = 9000 if tier == "thorough" else 450
+    n = 20000 if tier == "thorough" else 1000
     js = [{"kind": "hyp", "shard": i, "n": n, "max_len": 400 if (tier == "thorough" and i % 4 == 3) else 40}
           for i in range(16)]
     js += [{"kind": "enum", "shard": i} for i in range(NENUM)]
